@@ -108,6 +108,15 @@ def runSteps {P} (step : Running P → Step P → Except String (Running P)) :
     | .error e => .error e
     | .ok r' => runSteps step r' ss
 
+/-- a wrong variant (seeded defect C18-4): containers that are uninitialised in the file are skipped, so
+the running detector keeps whatever it held in them -/
+def runStepSkipEmpty {P} (r : Running P) : Step P → Except String (Running P)
+  | .write k v => .ok { r with store := fun q => if q = k then v else r.store q }
+  | .load ty shape file =>
+    if ty ≠ r.ty then .error "TypeError"
+    else if shape ≠ r.shape then .error "ValueError"
+    else .ok { r with store := fun q => match file q with | some v => some v | none => r.store q }
+
 /-- the states after each step (what the model placed next would see) -/
 def runTrace {P} (step : Running P → Step P → Except String (Running P)) :
     Running P → List (Step P) → Except String (List (Running P))
